@@ -550,6 +550,21 @@ func inject(rt *rapid.T, v *model.Variant, m *model.Node, kind string, a active)
 	if len(deep) > 0 && rapid.IntRange(0, 2).Draw(rt, "deep") > 0 {
 		pool = deep
 	}
+	if kind == kKey1 || kind == kKeyN {
+		// one time out of three a list whose union key has a string member, when the tree has one
+		var us []cand
+		for _, c := range cands {
+			for _, kf := range c.f.KeyFields {
+				if _, ok := sameTextAsString(kf.Type, model.Val{K: model.KUint8}); ok {
+					us = append(us, c)
+					break
+				}
+			}
+		}
+		if len(us) > 0 && rapid.IntRange(0, 1).Draw(rt, "unionstringkey") == 0 {
+			pool = us
+		}
+	}
 	c := pool[rapid.IntRange(0, len(pool)-1).Draw(rt, "site")]
 	n, f := c.s.N, c.f
 	flt := fault{Kind: kind, Where: c.s, Field: f.Name}
@@ -577,6 +592,32 @@ func inject(rt *rapid.T, v *model.Variant, m *model.Node, kind string, a active)
 		ents := n.List[f.Name]
 		e := ents[rapid.IntRange(0, len(ents)-1).Draw(rt, "entry")]
 		ki := rapid.IntRange(0, len(e.Key)-1).Draw(rt, "keyidx")
+		// entries whose key has a same-text string twin are preferred two times out of three
+		type ek struct{ e, k int }
+		var twins []ek
+		for ei, x := range ents {
+			for kx := range x.Key {
+				if _, ok := sameTextAsString(f.KeyFields[kx].Type, x.Key[kx]); ok {
+					twins = append(twins, ek{ei, kx})
+				}
+			}
+		}
+		forceTwin := false
+		if len(twins) > 0 && rapid.IntRange(0, 3).Draw(rt, "twin") > 0 {
+			t := twins[rapid.IntRange(0, len(twins)-1).Draw(rt, "twinidx")]
+			e, ki, forceTwin = ents[t.e], t.k, true
+		}
+		// a union key with a string member: the map key becomes the STRING whose text equals the key leaf's
+		// number / name (another value of the union: 10 and "10" are different keys)
+		if alt, ok := sameTextAsString(f.KeyFields[ki].Type, e.Key[ki]); ok && (forceTwin || rapid.Bool().Draw(rt, "sametext")) {
+			old := model.KeyCanon(e.Key)
+			e.Key = append([]model.Val(nil), e.Key...)
+			e.Key[ki] = alt
+			flt.Desc = fmt.Sprintf("map key changed from [%s] to the string member with the same text [%s]; key leaves unchanged", old, model.KeyCanon(e.Key))
+			flt.Where.InEntry = true
+			flt.Field = f.Name + " (same text, other union member)"
+			return flt, true
+		}
 		nk, ok := freshKeyVal(rt, v, f.KeyFields[ki], a, func(x model.Val) bool {
 			trial := append([]model.Val(nil), e.Key...)
 			trial[ki] = x
@@ -743,6 +784,20 @@ func inject(rt *rapid.T, v *model.Variant, m *model.Node, kind string, a active)
 	return flt, true
 }
 
+// sameTextAsString: for a union with an unrestricted string member, the string value whose text is the
+// lexical form of cur (a value of another member).
+func sameTextAsString(lt *model.LType, cur model.Val) (model.Val, bool) {
+	if lt == nil || len(lt.Members) == 0 || cur.K == model.KStr || cur.K == model.KBin || cur.K == model.KEmpty {
+		return model.Val{}, false
+	}
+	for _, m := range lt.Members {
+		if m.VKind() == model.KStr && len(m.Patterns) == 0 && len(m.Length) == 0 && m.Leafref == "" {
+			return model.Val{K: model.KStr, S: cur.Lexical()}, true
+		}
+	}
+	return model.Val{}, false
+}
+
 // innerChoicePairs lists the pairs of plain leaves of one struct that lie in different cases of a choice
 // which is itself nested in a case of another choice (same outer case for both).
 func innerChoicePairs(si *model.StructInfo) [][2]*model.FieldInfo {
@@ -864,6 +919,9 @@ func TestC07(t *testing.T) {
 		}
 		injected.inc(kind)
 		nt := flt.Where.Depth >= 2 || flt.Where.InEntry
+		if strings.Contains(flt.Field, "same text") {
+			classes = append(classes, "fault:key-same-text-other-union-member")
+		}
 		if flt.Field == "(inner choice)" {
 			classes = append(classes, "fault:two-cases-of-nested-choice")
 		}
